@@ -346,10 +346,12 @@ Modes(ts) == { Mode(ds, ms, fl, nt, sg, kw, ws, len) :
                  ds \in {FALSE}, ms \in {FALSE},
                  fl \in {FALSE}, nt \in Both(HasTok(ts, "not")),
                  sg \in {FALSE},
-                 kw \in Both(HasKwTok(ts)), ws \in Both(HasWsComposite(ts)),
+                 \* let / in are not reserved: the grammar's identifier is any unquoted-string, and a let expression
+                 \* is recognised by "let" in front of a variable binding (C04: every string of the grammar compiles)
+                 kw \in {FALSE}, ws \in Both(HasWsComposite(ts)),
                  len \in Both(HasOpenLit(ts)) }
-DefaultMode == Mode(FALSE, FALSE, FALSE, TRUE, FALSE, TRUE, TRUE, TRUE)
+DefaultMode == Mode(FALSE, FALSE, FALSE, TRUE, FALSE, FALSE, TRUE, TRUE)
 \* the two pure readings of DESIGN.md appendix A
 ModeR == DefaultMode
-ModeU == Mode(FALSE, FALSE, FALSE, FALSE, FALSE, TRUE, TRUE, TRUE)
+ModeU == Mode(FALSE, FALSE, FALSE, FALSE, FALSE, FALSE, TRUE, TRUE)
 =============================================================================
